@@ -65,6 +65,7 @@ def run(rep: Report, tier: str) -> None:
 	rule_template_path_match(rep, idx)
 	rule_attr_walkers(rep, idx)
 	rule_ternary_merge(rep, idx)
+	rule_receiver_kinds(rep, idx)
 
 
 def rule_a(rep: Report, idx: SourceIndex) -> None:
@@ -322,6 +323,16 @@ def rule_c(rep: Report, idx: SourceIndex) -> None:
 				else:
 					tops.append(f'<{unparse(e)[:40]}>')
 		r.check(bool(tops) and all(x == t for x in tops), f'{h}->{t}', f.where, f'{h} returns from_standard({tops}) but the node class denotes {t}', unparse(f.node).split('\n')[0])
+	# `a or b` / `a and b` evaluate to one of their OPERANDS: the result is bool only when the operands are. A handler that never looks at its operands
+	# types `'' or 'x'` as bool (CPython: str)
+	for h in ('on_or_compare', 'on_and_compare'):
+		f = pr.method(h)
+		if f is None:
+			continue
+		ops = [p_ for p_ in f.params() if p_ not in ('self', 'node')]
+		read = any(isinstance(n, ast.Name) and n.id in ops and isinstance(n.ctx, ast.Load) for n in ast.walk(f.node))
+		tok = 'or' if 'or' in h else 'and'
+		r.check(read, f'{h}:operands-ignored', f.where, f'{h} types every `a {tok} b` as bool without looking at the operand types: for operands that are not bool CPython yields one of the operands (`a {tok} b` with a, b: str is a str), while the declaration reads `bool c = a {"||" if tok == "or" else "&&"} b`', unparse(f.node).split('\n')[0])
 
 
 def rule_e(rep: Report, idx: SourceIndex) -> None:
@@ -602,3 +613,108 @@ def rule_ternary_merge(rep: Report, idx: SourceIndex) -> None:
 			r.skip('merge-condition', (m.relpath, ret.lineno), f'condition of the single-arm return not recognised: {[(unparse(a), p_) for a, p_ in known]}')
 	if not decided:
 		r.skip('merge-condition', f.where, 'on_ternary_operator has no return that hands back one arm alone')
+
+
+def rule_receiver_kinds(rep: Report, idx: SourceIndex) -> None:
+	"""A function declared in a class carries an implicit first parameter (self / cls). The node model has three such kinds — the keys of HelperBuilder's
+	table whose helper derives from the helper `Method` — and in the NODE hierarchy they are siblings under Function (in the helper hierarchy they are
+	not). A kind test in the semantics layer that names some of them must, together with the other arms of its if-chain, cover all of them, unless it
+	is conjoined with a member that only the named kinds define. Otherwise the missing kinds fall into the plain-function arm: the signature is read
+	without skipping the receiver and every argument is typed as the parameter one position to the left."""
+	from vlib.flow import parent_map
+	r = rep.rule('C03/receiver-kinds-complete', 'kind tests over the function node classes with an implicit receiver (Method / ClassMethod / Constructor: siblings under Function) cover all of them across the arms of their if-chain, or are conjoined with a member only the tested kinds define', floor=2)
+	tm = idx.mod('rogw/tranp/semantics/reflection/helper/template.py')
+	hb = tm.cls('HelperBuilder')
+	hm = tm.cls('Method')
+	build = hb.method('build') if hb else None
+	kinds: list = []
+	if build is not None and hm is not None:
+		for d in [n for n in ast.walk(build.node) if isinstance(n, ast.Dict)]:
+			for k, v in zip(d.keys, d.values):
+				kc, vc = (idx.resolve_class(tm, k) if k is not None else None), idx.resolve_class(tm, v)
+				if kc is not None and vc is not None and hm in idx.mro(vc):
+					kinds.append(kc)
+	if len(kinds) < 2:
+		r.skip('receiver-kinds', (tm.relpath, 1), 'HelperBuilder.build no longer maps node classes to helper classes in a dict literal: the kinds with an implicit receiver cannot be derived')
+		return
+	names = sorted(k.name for k in kinds)
+	r.ok('receiver-kinds', build.where, message=f'kinds with an implicit receiver: {names}')
+
+	def covered(classes: list) -> set[str]:
+		return {k.name for k in kinds if any(c in idx.mro(k) for c in classes)}
+
+	def test_of(n: ast.AST, m) -> tuple[str, list] | None:
+		"""(subject text, tested classes) of `S.is_a(A, B)` / `isinstance(S, A | (A, B))`"""
+		if not isinstance(n, ast.Call):
+			return None
+		if isinstance(n.func, ast.Attribute) and n.func.attr == 'is_a' and n.args:
+			cs = [idx.resolve_class(m, a) for a in n.args]
+			return (unparse(n.func.value), cs) if all(c is not None for c in cs) else None
+		if isinstance(n.func, ast.Name) and n.func.id == 'isinstance' and len(n.args) == 2:
+			spec = n.args[1]
+			elts = list(spec.elts) if isinstance(spec, ast.Tuple) else [spec]
+			flat: list[ast.AST] = []
+			while elts:
+				e = elts.pop(0)
+				if isinstance(e, ast.BinOp) and isinstance(e.op, ast.BitOr):
+					elts[:0] = [e.left, e.right]
+				else:
+					flat.append(e)
+			cs = [idx.resolve_class(m, e) for e in flat]
+			return (unparse(n.args[0]), cs) if all(c is not None for c in cs) else None
+		return None
+
+	n_sites = 0
+	for rel in idx.glob('rogw/tranp/semantics/**/*.py'):
+		m = idx.mod(rel)
+		for q, f in m.functions.items():
+			pm = None
+			for n in walk_no_nested(f.node):
+				t = test_of(n, m)
+				if t is None:
+					continue
+				subj, cs = t
+				cov = covered(cs)
+				if not cov or not all(c in kinds or len(covered([c])) == len(kinds) for c in cs):
+					continue  # no receiver kind named, or named next to unrelated classes (a different classification): only pure kind tests are judged
+				n_sites += 1
+				key = f'{q}:{subj}:is({",".join(sorted(c.name for c in cs))})'
+				if len(cov) == len(kinds):
+					r.ok(key, (rel, n.lineno))
+					continue
+				pm = pm or parent_map(f.node)
+				# (1) the other arms of the same if / elif chain (and conditional expressions nested in one another)
+				top = n
+				while id(top) in pm and not isinstance(pm[id(top)], (ast.If, ast.IfExp)) and isinstance(pm[id(top)], ast.expr):
+					top = pm[id(top)]
+				holder = pm.get(id(top))
+				chain_cov = set(cov)
+				conj_ok = False
+				if isinstance(holder, (ast.If, ast.IfExp)) and holder.test is top:
+					first = holder
+					while id(first) in pm and isinstance(pm[id(first)], type(holder)) and (pm[id(first)].orelse == [first] if isinstance(first, ast.If) else pm[id(first)].orelse is first):
+						first = pm[id(first)]
+					cur = first
+					while isinstance(cur, (ast.If, ast.IfExp)):
+						for x in ast.walk(cur.test):
+							t2 = test_of(x, m)
+							if t2 is not None and t2[0] == subj:
+								chain_cov |= covered(t2[1])
+						nxt = cur.orelse
+						cur = nxt[0] if isinstance(nxt, list) and len(nxt) == 1 else (nxt if isinstance(nxt, ast.IfExp) else None)
+				# (2) conjoined with a member that only the tested kinds define
+				par = pm.get(id(n))
+				if isinstance(par, ast.BoolOp) and isinstance(par.op, ast.And):
+					for other in par.values:
+						for x in ast.walk(other):
+							if isinstance(x, ast.Attribute) and unparse(x.value) == subj and other is not n:
+								owners = {k.name for k in kinds if idx.lookup(k, x.attr) is not None}
+								if owners and owners <= cov:
+									conj_ok = True
+				if len(chain_cov) == len(kinds) or conj_ok:
+					r.ok(key, (rel, n.lineno))
+				else:
+					missing = sorted(set(names) - chain_cov)
+					r.violate(key, (rel, n.lineno), f'{q} tests `{unparse(n)[:80]}` and no other arm of the chain tests {missing}: in the node hierarchy {names} are siblings under Function (only the template HELPER classes of the same names derive from one another), so a call of a {"/".join(missing)} is handled as a plain function, the implicit receiver is not skipped and each argument (a lambda: its parameters) is typed from the parameter one position to the left', unparse(n)[:120])
+	if n_sites == 0:
+		r.skip('kind-tests', None, 'no test over the receiver kinds found in the semantics layer')
